@@ -425,7 +425,7 @@ func (w *rtWorld) walkRoot(r *rtRoot, uncovered map[*ssa.Function]bool) {
 }
 
 func rtBuild() (*rtResult, error) {
-	w, err := rtLoad()
+	w, err := rtWorldCached()
 	if err != nil {
 		return nil, err
 	}
